@@ -292,6 +292,7 @@ const PART_E: &str = "e: layer value substitution";
 const PART_F0: &str = "f0: single remainder coefficient changed";
 const PART_F: &str = "f: adaptive remainder substitution within the degree bound";
 const PART_G: &str = "g: adaptive remainder substitution above the degree bound";
+const PART_M: &str = "m: forged remainder offered with no layer commitments (emptied adversarial channel; second verifier on a drained default channel)";
 const PART_I: &str = "i: last layer removed from the proof";
 const PART_K: &str = "k: last-layer sibling solved to meet the committed remainder";
 
@@ -827,6 +828,47 @@ where
                     };
                     if !same {
                         mck::report::machinery(&format!("C09 move f: AdvChannel and DefaultVerifierChannel disagree on the same forged remainder ({res:?} vs {res2:?}) for {}", cx.key(&positions, mv)));
+                    }
+                    // m: the same forgery when the verifier holds NO commitments: (1) the adversarial
+                    // channel hands out an empty commitment list, (2) a second FriVerifier is built on a
+                    // default channel whose commitments a first one has already taken. The remainder is
+                    // then bound to nothing; the only sound outcomes are an error (or a panic, which is
+                    // recorded but not judged here: both call sequences are outside the protocol)
+                    {
+                        let mut ch2 = AdvChannel::<E, H>::from_proof(&proved.proof, &proved.commitments, domain, cfg.folding).unwrap_or_else(|e| mck::report::machinery(&e));
+                        ch2.commitments.clear();
+                        ch2.remainder = served.clone();
+                        let (o, q, pz) = (opts(), qvals.clone(), positions.clone());
+                        let r1 = mck::catch(move || run_verifier::<B, E, H, _>(&mut ch2, o, n - 1, &q, &pz));
+                        let r2 = match proof_from_bytes(&raw2.print()) {
+                            Ok(Ok((pf, true))) => {
+                                let (o, q, pz, cm) = (opts(), qvals.clone(), positions.clone(), proved.commitments.clone());
+                                mck::catch(move || {
+                                    use winter_crypto::{DefaultRandomCoin, MerkleTree, RandomCoin};
+                                    use winter_fri::{DefaultVerifierChannel, FriVerifier};
+                                    let mut channel = match DefaultVerifierChannel::<E, H, MerkleTree<H>>::new(pf, cm, domain, o.folding_factor()) {
+                                        Ok(c) => c,
+                                        Err(e) => return Err(Reject::Channel(format!("{e}"))),
+                                    };
+                                    let mut coin = DefaultRandomCoin::<H>::new(&[]);
+                                    let _first = FriVerifier::<E, _, H, DefaultRandomCoin<H>, MerkleTree<H>>::new(&mut channel, &mut coin, o.clone(), n - 1);
+                                    run_verifier::<B, E, H, _>(&mut channel, o, n - 1, &q, &pz)
+                                })
+                            },
+                            other => mck::report::machinery(&format!("C09 move m: edited FriProof bytes do not decode: {other:?}")),
+                        };
+                        for (route, r) in [("emptied adversarial channel", r1), ("second verifier on a drained default channel", r2)] {
+                            out.states += 1;
+                            out.transitions += 1;
+                            let sp = out.part(PART_M);
+                            sp.evals += 1;
+                            sp.nontrivial += 1;
+                            match r {
+                                Ok(Ok(())) => sp.fail("accepted:remainder-substitution:no-commitments".into(), cx.key(&positions, mv), format!("ACCEPTED ({route}): {what}; {}", cx.key(&positions, mv)), cx.replay(&positions, mv)),
+                                Ok(Err(rj)) => *out.reasons.entry(format!("{PART_M} | {}", rj.name())).or_insert(0) += 1,
+                                Err(_) => *out.reasons.entry(format!("{PART_M} | panic (call sequence outside the protocol; not judged)")).or_insert(0) += 1,
+                            }
+                        }
                     }
                     match judge(&mut out, PART_F, "accepted:remainder-substitution", &cx, &positions, mv, &what, res2) {
                         Some(Err(r)) if !r.name().contains("RemainderCommitmentMismatch") => {
